@@ -762,4 +762,70 @@ theorem c12_decided_by_encMax (m : MTy) (hw : m.wf = true) (N : Nat) :
   obtain ⟨v, hv, hlen⟩ := max_size_tight m ht hw
   exact ⟨v, hv, by rw [hlen, hN, encMax_eq_maxSize_of_tight m ht hw]⟩
 
+/-! ## the listed tight kinds need no side condition -/
+
+mutual
+theorem listed_populated : (m : MTy) → m.listed = true → m.populated = true ∧ m.optionsPopulated = true
+  | .bool, _ => ⟨rfl, rfl⟩
+  | .int _ _, _ => ⟨rfl, rfl⟩
+  | .usize, _ => ⟨rfl, rfl⟩
+  | .isize, _ => ⟨rfl, rfl⟩
+  | .nonZero _ _, _ => ⟨rfl, rfl⟩
+  | .nonZeroUsize, _ => ⟨rfl, rfl⟩
+  | .nonZeroIsize, _ => ⟨rfl, rfl⟩
+  | .f32, _ => ⟨rfl, rfl⟩
+  | .f64, _ => ⟨rfl, rfl⟩
+  | .char, _ => ⟨rfl, rfl⟩
+  | .hstring _, _ => ⟨rfl, rfl⟩
+  | .option t, h => by
+    simp only [MTy.listed] at h
+    obtain ⟨h1, h2⟩ := listed_populated t h
+    simp [MTy.populated, MTy.optionsPopulated, h1, h2]
+  | .array t _, h => by
+    simp only [MTy.listed] at h
+    obtain ⟨h1, h2⟩ := listed_populated t h
+    simp [MTy.populated, MTy.optionsPopulated, h1, h2]
+  | .hvec t _, h => by
+    simp only [MTy.listed] at h
+    obtain ⟨h1, h2⟩ := listed_populated t h
+    simp [MTy.populated, MTy.optionsPopulated, h1, h2]
+  | .tuple ts, h => by
+    simp only [MTy.listed] at h
+    obtain ⟨h1, h2⟩ := listed_populatedList ts h
+    simp [MTy.populated, MTy.optionsPopulated, h1, h2]
+  | .unit, h => by simp [MTy.listed] at h
+  | .phantom, h => by simp [MTy.listed] at h
+  | .result _ _, h => by simp [MTy.listed] at h
+  | .range _, h => by simp [MTy.listed] at h
+  | .rangeInclusive _, h => by simp [MTy.listed] at h
+  | .rangeFrom _, h => by simp [MTy.listed] at h
+  | .rangeTo _, h => by simp [MTy.listed] at h
+  | .ref _, h => by simp [MTy.listed] at h
+  | .dstruct _, h => by simp [MTy.listed] at h
+  | .denum _, h => by simp [MTy.listed] at h
+theorem listed_populatedList : (ts : List MTy) → listedList ts = true →
+    populatedList ts = true ∧ optionsPopulatedList ts = true
+  | [], _ => ⟨rfl, rfl⟩
+  | t :: ts, h => by
+    simp only [listedList, Bool.and_eq_true] at h
+    obtain ⟨h1, h2⟩ := listed_populated t h.1
+    obtain ⟨h3, h4⟩ := listed_populatedList ts h.2
+    simp [populatedList, optionsPopulatedList, h1, h2, h3, h4]
+end
+
+/-- **C12 for the kinds the property calls tight, with no side condition**: a constant `N` is "an upper bound
+that some value attains" exactly when `N = encMax m`. -/
+theorem c12_listed_iff (m : MTy) (hw : m.wf = true) (hl : m.listed = true) (N : Nat) :
+    ((∀ v, m.inhabits v = true → (enc v).length ≤ N) ∧ (∃ v, m.inhabits v = true ∧ (enc v).length = N))
+      ↔ N = encMax m := by
+  obtain ⟨hp, ho⟩ := listed_populated m hl
+  constructor
+  · rintro ⟨hb, v, hv, hlen⟩
+    have h1 : encMax m ≤ N := (bound_iff_encMax_le m hw hp ho N).mp hb
+    have h2 : N ≤ encMax m := by rw [← hlen]; exact enc_le_encMax m v hw hv
+    omega
+  · intro hN
+    subst hN
+    exact ⟨(bound_iff_encMax_le m hw hp ho _).mpr (Nat.le_refl _), encMax_attained m hw hp ho⟩
+
 end Postcard
